@@ -122,13 +122,20 @@ ASSUME TLCSet(1, {})
 \* the property's own demand on an outcome: a stop/abort that was acknowledged with ok has taken effect
 \* once everything is quiet - no script of the VM is left (nothing reloads scripts in these histories)
 Granted(o, cc) == \E i \in 1..Len(o.c) : i <= Len(cc) /\ cc[i] \in {"stop", "abort"} /\ o.c[i] = "ok"
+\* ... and it takes effect within a bounded number of instructions: o.after counts the instructions the
+\* executor completed after the first acknowledged stop/abort returned (the one in flight may finish)
+AfterBound == 2
 StopTakesEffectO(o, cc) == Granted(o, cc) => ~o.loaded
+StopIsPromptO(o, cc) == Granted(o, cc) => o.after <= AfterBound
+Core(o) == [e |-> o.e, c |-> o.c, state |-> o.state, loaded |-> o.loaded]
 AllObservedAllowed ==
-    LET missing == Observed \ TLCGet(1)
+    LET missing == { o \in Observed : Core(o) \notin TLCGet(1) }
         cc == IF CallsC = <<>> THEN <<>> ELSE CallsC
-        ineffective == { o \in Observed : ~StopTakesEffectO(o, cc) } IN
+        ineffective == { o \in Observed : ~StopTakesEffectO(o, cc) }
+        late == { o \in Observed : ~StopIsPromptO(o, cc) } IN
     /\ PrintT(<<"REACHED", Cardinality(TLCGet(1))>>)
     /\ \A o \in missing : PrintT(<<"NOTALLOWED", o>>)        \* mechanism drift (reported as a note)
     /\ \A o \in ineffective : PrintT(<<"NOTEFFECTIVE", o>>)  \* the property oracle
-    /\ ineffective = {}
+    /\ \A o \in late : PrintT(<<"KEEPSEXECUTING", o>>)       \* the property oracle
+    /\ ineffective = {} /\ late = {}
 =============================================================================
